@@ -108,11 +108,14 @@ Theorem C12_cow_chmod_chtimes_chown_report : forall (B L : Type) (bstep : B -> o
 Proof. exact @cow_meta_reports. Qed.
 Print Assumptions C12_cow_chmod_chtimes_chown_report.
 
+(* CacheOnReadFs: Open on a miss / a stale copy calls CacheOnReadFs.copyToLayer [cache_copy_to_layer]: since
+   the fix (cache_copy_dir_mkdir = 1) the base's Stat, a MkdirAll in the layer for a directory, Union's
+   copyToLayer otherwise — see C12_cache_copy_is_copy and C12_cache_copy_atomic below *)
 Theorem C12_cache_open_miss_reports : forall (B L : Type) (bstep : B -> op -> B * res) (lstep : L -> op -> L * res)
     dur now sb sl tbl name sb1 sl1 fi sb2 bfi sb3 sl2 ce,
   cache_status bstep lstep dur now sb sl name = (sb1, sl1, CMiss, fi, None) ->
   bstep sb1 (Stat name) = (sb2, RInfo bfi) -> fi_dir bfi = false ->
-  copy_to_layer bstep lstep sb2 sl1 name = (sb3, sl2, Some ce) ->
+  cache_copy_to_layer bstep lstep sb2 sl1 name = (sb3, sl2, Some ce) ->
   cache_step bstep lstep dur now (sb, sl, tbl) (Open name) = ((sb3, sl2, tbl), RErr ce).
 Proof. exact @cache_open_miss_reports. Qed.
 Print Assumptions C12_cache_open_miss_reports.
@@ -120,18 +123,54 @@ Print Assumptions C12_cache_open_miss_reports.
 Theorem C12_cache_open_stale_reports : forall (B L : Type) (bstep : B -> op -> B * res) (lstep : L -> op -> L * res)
     dur now sb sl tbl name sb1 sl1 f sb3 sl2 ce,
   cache_status bstep lstep dur now sb sl name = (sb1, sl1, CStale, Some f, None) -> fi_dir f = false ->
-  copy_to_layer bstep lstep sb1 sl1 name = (sb3, sl2, Some ce) ->
+  cache_copy_to_layer bstep lstep sb1 sl1 name = (sb3, sl2, Some ce) ->
   cache_step bstep lstep dur now (sb, sl, tbl) (Open name) = ((sb3, sl2, tbl), RErr ce).
 Proof. exact @cache_open_stale_reports. Qed.
 Print Assumptions C12_cache_open_stale_reports.
 
+(* CacheOnReadFs.OpenFile: copyFileToLayer opens the base with the caller's flags less O_APPEND (since the fix,
+   copyfiletolayer_clears_append = 1; O_RDONLY stays O_RDONLY, so [read_open] above still covers it); the
+   error of the copy is returned before the (O_EXCL-less) final opens *)
 Theorem C12_cache_openfile_reports : forall (B L : Type) (bstep : B -> op -> B * res) (lstep : L -> op -> L * res)
     dur now sb sl tbl name flag perm sb1 sl1 cs fi sb2 sl2 ce,
   cache_status bstep lstep dur now sb sl name = (sb1, sl1, cs, fi, None) -> cs = CMiss \/ cs = CStale ->
-  copy_to_layer_with bstep lstep sb1 sl1 name (OpenFile name flag perm) = (sb2, sl2, Some ce) ->
+  copy_to_layer_with bstep lstep sb1 sl1 name (OpenFile name (Z.land flag (Z.lnot o_append)) perm) = (sb2, sl2, Some ce) ->
   cache_step bstep lstep dur now (sb, sl, tbl) (OpenFile name flag perm) = ((sb2, sl2, tbl), RErr ce).
 Proof. exact @cache_openfile_reports. Qed.
 Print Assumptions C12_cache_openfile_reports.
+
+Theorem C12_rdonly_clears_append : Z.land o_rdonly (Z.lnot o_append) = o_rdonly.
+Proof. exact rdonly_clears_append. Qed.
+
+(* cache_copy_to_layer on a base entry that is not a directory: Union's copyToLayer on the base state the Stat
+   left (for ANY two filesystems) ... *)
+Theorem C12_cache_copy_is_copy : forall (B L : Type) (bstep : B -> op -> B * res) (lstep : L -> op -> L * res)
+    sb sl name sb1 bfi,
+  bstep sb (Stat name) = (sb1, RInfo bfi) -> fi_dir bfi = false ->
+  cache_copy_to_layer bstep lstep sb sl name = copy_to_layer bstep lstep sb1 sl name.
+Proof. exact @cache_copy_nondir. Qed.
+Print Assumptions C12_cache_copy_is_copy.
+
+(* ... so, MemMapFs layers, it has the same three-way outcome: faults on the layer side (at most one from call
+   n0 on) and on the base side (any plan; a refused Stat does not stop the copy) *)
+Theorem C12_cache_copy_atomic : forall (name : str) (pl : plan) (sb sl : mst) (dat : bytes) (n0 : nat),
+  normalize_path name = name -> name <> s_slash -> amo_from pl n0 ->
+  reg_file sb name dat -> layer_sane sl name ->
+  exists sb' sl' n' r,
+    cache_copy_to_layer m_step (faulty_step m_step pl) sb (sl, n0) name = (sb', (sl', n'), r) /\
+    three_way sl sl' name dat r /\ layer_sane sl' name /\ cosmetic sb sb' /\
+    (r <> None -> exists i, (n0 <= i < n')%nat /\ pl i <> FltPass).
+Proof. exact c12_cache_copy. Qed.
+Print Assumptions C12_cache_copy_atomic.
+
+Theorem C12_cache_copy_atomic_base_side : forall (name : str) (pl : plan) (sb sl : mst) (dat : bytes) (nB : nat),
+  normalize_path name = name -> name <> s_slash ->
+  reg_file sb name dat -> layer_sane sl name ->
+  exists sb' n' sl' r,
+    cache_copy_to_layer (faulty_step m_step pl) m_step (sb, nB) sl name = ((sb', n'), sl', r) /\
+    three_way sl sl' name dat r /\ layer_sane sl' name /\ cosmetic sb sb'.
+Proof. exact c12_cache_copy_base. Qed.
+Print Assumptions C12_cache_copy_atomic_base_side.
 
 (* CopyOnWriteFs.OpenFile with a write flag on a file that only the base holds, MemMapFs layers,
    one fault anywhere on the layer side (its own Stat included): the copy's outcome is three-way,
